@@ -6,6 +6,7 @@ use super::*;
 pub fn contracts() -> Vec<Contract> {
     vec![
         Contract { name: "c01_delegating_method_calls_own_fn", function: "fn_delegation_codegen.rs::FnDelegationCodegen::{gen_impl_block, gen_delegating_fn_item}, entrait_fn/mod.rs::{entrait_for_single_fn, entrait_for_mod}", props: &["C01", "C11"], run: c01_delegation },
+        Contract { name: "c11_unimock_attribute_parameters", function: "attributes.rs::UnimockAttrParams::{to_tokens, unmock_with}, trait_codegen.rs::gen_trait_def", props: &["C11"], run: c11_unimock },
         Contract { name: "c04_impl_header_bounds", function: "analyze_generics.rs::{analyze_fn_deps, find_deps_generic_bounds}, fn_delegation_codegen.rs::gen_impl_block", props: &["C04", "C19", "C01", "C03"], run: c04_header },
         Contract { name: "c05_concrete_dependency", function: "analyze_generics.rs::{extract_deps_from_type, detect_trait_dependency_mode}, trait_codegen.rs::gen_trait_def", props: &["C05", "C15"], run: c05_concrete },
         Contract { name: "c13_trait_visibility", function: "entrait_fn/input_attr.rs::EntraitFnAttr::parse, trait_codegen.rs::TraitVisibility, entrait_fn/mod.rs::entrait_for_mod, entrait_trait/mod.rs::gen_impl_delegation_trait_defs", props: &["C13", "C08"], run: c13_visibility },
@@ -685,6 +686,117 @@ fn c18_attrs(_ctx: &Ctx, r: &mut Report) {
             }
             if !dangling.is_empty() {
                 r.fail("cfg-dangling-method", &input, dangling.join("; "));
+            }
+        });
+    }
+}
+
+// ------------------------------------------------------------------------------------ C11
+
+fn c11_unimock(ctx: &Ctx, r: &mut Report) {
+    let max = if ctx.tier == Tier::Thorough { 3 } else { 2 };
+    r.domain = "unimock-enabled fn / 2-fn mod / 0-fn mod / trait inputs; deps {&D, &impl Bar, &App (fn only), no_deps} x parameter lists over the C01 alphabet x {sync, async}; mixed modules (generic + no_deps is not expressible, so modules are homogeneous)".into();
+    r.bound = format!("arity 0..{}", max);
+    let squash = |s: &str| -> String { s.chars().filter(|c| !c.is_whitespace()).collect() };
+    for mode in [Mode::Fn, Mode::Mod, Mode::Trait] {
+        for deps in [Deps::RefGeneric, Deps::RefImpl, Deps::Concrete, Deps::NoDeps] {
+            if mode != Mode::Fn && deps == Deps::Concrete {
+                continue;
+            }
+            if mode == Mode::Trait && deps != Deps::RefGeneric {
+                continue;
+            }
+            for n in 0..=max {
+                for ps in sequences(PARAMS.len(), n) {
+                    for is_async in [false, true] {
+                        let mut opts: Vec<String> = vec!["unimock".into(), "mock_api = TrMock".into()];
+                        if deps == Deps::NoDeps {
+                            opts.push("no_deps".into());
+                        }
+                        let names: Vec<&str> = match mode {
+                            Mode::Fn => vec!["f"],
+                            _ => vec!["f", "g"],
+                        };
+                        let (attr, item) = match mode {
+                            Mode::Fn => (attr_for(Mode::Fn, &opts), fn_source("f", "", is_async, deps, &ps, "-> i32")),
+                            Mode::Mod => (attr_for(Mode::Fn, &opts), format!("mod m {{ {} }}", names.iter().map(|nm| fn_source(nm, "pub", is_async, deps, &ps, "-> i32")).collect::<Vec<_>>().join(" "))),
+                            Mode::Trait => {
+                                let plist: Vec<String> = ps.iter().enumerate().map(|(i, p)| format!("p{}: {}", i, PARAMS[*p].1)).collect();
+                                let decl = |nm: &str| format!("{} fn {}(&self{}{}) -> i32;", if is_async { "async" } else { "" }, nm, if plist.is_empty() { "" } else { ", " }, plist.join(", "));
+                                ("unimock, mock_api = TrMock".to_string(), format!("trait Tr {{ {} {} }}", decl("f"), decl("g")))
+                            }
+                        };
+                        let input = format!("#[entrait({})] {}", attr, item);
+                        r.guarded(&input, |r| {
+                            let out = expand(Variant::Entrait, &attr, &item);
+                            if let Some(e) = compile_error_of(&out) {
+                                r.fail("unexpected-error", &input, e);
+                                return;
+                            }
+                            let file = match parse_file(&out) {
+                                Ok(f) => f,
+                                Err(e) => {
+                                    r.fail("unparsable", &input, e);
+                                    return;
+                                }
+                            };
+                            let tr = match super::c_opts::the_trait(mode, &file) {
+                                Some(t) => t,
+                                None => {
+                                    r.fail("no-trait", &input, "trait not found".into());
+                                    return;
+                                }
+                            };
+                            // the unimock derivation: #[cfg_attr(test, ::entrait::__unimock::unimock(..))]
+                            let mut found: Option<String> = None;
+                            for a in &tr.attrs {
+                                let s = squash(&tt_string(a));
+                                if let Some(p) = s.find("::entrait::__unimock::unimock(") {
+                                    found = Some(s[p..].to_string());
+                                }
+                            }
+                            let got = match found {
+                                Some(g) => g,
+                                None => {
+                                    r.fail("no-unimock-attribute", &input, "no `::entrait::__unimock::unimock(..)` derivation on the trait".into());
+                                    return;
+                                }
+                            };
+                            // expected parameters, from the property statement
+                            let tms = trait_methods(&tr);
+                            let mut entries: Vec<String> = vec![];
+                            for (k, nm) in names.iter().enumerate() {
+                                match deps {
+                                    Deps::Concrete => entries.push("_".into()),
+                                    Deps::NoDeps => {
+                                        let ids: Vec<String> = tms.get(k).map(|m| typed_idents(&m.sig).into_iter().map(|o| o.unwrap_or_else(|| "?".into())).collect()).unwrap_or_default();
+                                        entries.push(format!("{}({})", nm, ids.join(",")));
+                                    }
+                                    _ => entries.push(nm.to_string()),
+                                }
+                            }
+                            let api = if mode == Mode::Fn { "api=[TrMock]" } else { "api=TrMock" };
+                            let unmock = if mode == Mode::Trait { String::new() } else { format!(",unmock_with=[{}]", entries.join(",")) };
+                            let want_core = format!("::entrait::__unimock::unimock(prefix=::entrait::__unimock,{}{})", api, unmock);
+                            if !got.starts_with(&want_core) {
+                                r.fail("unimock-parameters", &input, format!("derivation is `{}`, expected `{}`", got, want_core));
+                            }
+                        });
+                    }
+                }
+            }
+        }
+    }
+    // a module without visible functions has no unmock_with list
+    {
+        let item = "mod m { fn private(deps: &impl Any) {} }";
+        let attr = "Tr, unimock, mock_api = TrMock";
+        let input = format!("#[entrait({})] {}", attr, item);
+        r.guarded(&input, |r| {
+            let out = expand(Variant::Entrait, attr, item);
+            let s: String = canon(&out).chars().filter(|c| !c.is_whitespace()).collect();
+            if !s.contains("unimock(prefix=::entrait::__unimock,api=TrMock)") {
+                r.fail("unimock-parameters-empty-module", &input, "expected `unimock(prefix = ::entrait::__unimock, api = TrMock)` without unmock_with".into());
             }
         });
     }
